@@ -3,6 +3,7 @@
 worktree (never /repo), run every claimed check with --root, record which checks report a violation.
    tools/matrix.py <worktree> <out.json> <change dir>..."""
 import json, os, subprocess, sys
+from concurrent.futures import ThreadPoolExecutor
 wt, out = sys.argv[1], sys.argv[2]
 dirs = sys.argv[3:]
 ids = [c["property_id"] for c in json.load(open("/verif/MANIFEST.json"))["checks"]]
@@ -20,10 +21,15 @@ for d in dirs:
             res[d] = {"error": "patch does not apply"}
             continue
     row = {}
-    for i in ids:
+    def one(i):
         r = subprocess.run(["./check", i, "--root", wt], cwd="/verif", capture_output=True, text=True, env=env)
         lines = [l for l in r.stdout.splitlines() if l.strip().startswith("violation:")]
-        row[i] = {"exit": r.returncode, "violations": lines[:4]}
+        return i, {"exit": r.returncode, "violations": lines[:4]}
+    k, v = one(ids[0])          # the first run fills the fact cache for this tree
+    row[k] = v
+    with ThreadPoolExecutor(8) as ex:
+        for k, v in ex.map(one, ids[1:]):
+            row[k] = v
     res[d] = row
     json.dump(res, open(out, "w"), indent=1)
     print(d, {i: v["exit"] for i, v in row.items() if v["exit"]}, flush=True)
